@@ -182,7 +182,13 @@ def monitorValidate (prop mode : String) (st : Int) (levels : List (Revocation.E
                 else Monitor.c05 env.crl c.toCrl st r
               | .fail => Monitor.c05 env.crl c.toCrl st r
             | _ => Monitor.c05 env.crl c.toCrl st r)
-      | "C11" => perCert (fun env c r tr => if mode == "ocsp" then ocspOnlyMon env c r tr else Monitor.c11 env c st r tr)
+      | "C11" =>
+        -- where the contacts were not observed (cancellation cases) the model's own trace stands in: the trace clauses then
+        -- pass (`Monitor.c11_model`) and only the routing visible in the result — method label, verdict — is judged
+        let observed := (fldOpt impl "traces").isSome
+        perCert (fun env c r tr =>
+          let tr' := if observed then tr else Revocation.certTrace env c st
+          if mode == "ocsp" then ocspOnlyMon env c r (if observed then tr else []) else Monitor.c11 env c st r tr')
       | "C12" =>
         if mode == "ocsp" then
           -- standalone entry point: completeness and the OCSP shape per certificate
